@@ -26,6 +26,8 @@
 #include <limits.h>
 #include <ctype.h>
 #include <sys/uio.h>
+#include <fcntl.h>
+#include <unistd.h>
 
 #include "meta.h"
 #include "convert.h"
@@ -76,7 +78,7 @@ static const char *elem_str(const elem *e)
 }
 
 /* ------------------------------------------------------------------- sources */
-enum { KNum, KStr, KBuf };
+enum { KNum, KStr, KBuf, KFile };
 #define MAXWALK 2600
 typedef struct {
 	MPT_INTERFACE(metatype) *mt;
@@ -397,7 +399,7 @@ static void interleave(source *s, const elem *seq, long L, int open, vf_rng *r, 
 		/* string iterator: an element is delimited by the conversion that reads it (advance without
 		 * a read takes the whole remaining text as the element): advance only behind a read */
 		if (s->kind == KStr && op >= 5 && op < 11 && !fresh_read) op = 0;
-		if (s->kind != KNum && op == 15) op = 0;   /* consume is for numeric sources */
+		if (s->kind != KNum && s->kind != KFile && op == 15) op = 0;   /* consume is for numeric sources */
 		if (op >= 5 && !(op >= 13 && op < 15)) fresh_read = 0;
 		if (op < 5) {
 			fresh_read = 1;
@@ -442,6 +444,35 @@ static void interleave(source *s, const elem *seq, long L, int open, vf_rng *r, 
 			src_read(s, &e);
 			fresh_read = 1;
 			if (p < L) VF_CHECK(elem_eq(&e, &seq[p]), "model:clone:disturbed-original", "%s: %s: after cloning at %ld the original reads %s instead of %s", s->api, s->desc, p, elem_str(&e), elem_str(&seq[p]));
+		}
+		else if (s->kind == KFile) {
+			/* queries without destination do not move the source: the element they looked at is the one converted next */
+			const MPT_STRUCT(value) *v;
+			int how = (int) vf_below(r, 3);
+			vf_at("iterator::value");
+			v = s->it->_vptr->value(s->it);
+			VF_CHECK(v != 0, "model:value:type", "%s: %s: file iterator without value", s->api, s->desc);
+			if (how < 2) {
+				vf_at("mpt_value_convert");
+				rr = mpt_value_convert(v, 'd', 0);
+				vf_count("file:query-without-destination", 1);
+				if (vf_logging) vf_log("  p=%ld query 'd' without destination -> %d", p, rr);
+				if (p < L) VF_CHECK(rr >= 0, "model:query:refused", "%s: %s: conversion query at position %ld of %ld returned %d", s->api, s->desc, p, L, rr);
+				src_read(s, &e);
+				if (p < L) VF_CHECK(elem_eq(&e, &seq[p]), "model:query:moved-source", "%s: %s: after a conversion query without destination position %ld reads %s, element is %s", s->api, s->desc, p, elem_str(&e), elem_str(&seq[p]));
+				else if (!open) VF_CHECK(e.st == StEnd, "model:value:past-end", "%s: %s: value behind the end gives %s", s->api, s->desc, elem_str(&e));
+			} else {
+				/* consume without destination = advance */
+				vf_at("mpt_iterator_consume");
+				rr = mpt_iterator_consume(s->it, 'd', 0);
+				vf_count("mpt_iterator_consume", 1);
+				if (vf_logging) vf_log("  p=%ld consume without destination -> %d", p, rr);
+				if (p < L) {
+					VF_CHECK(rr >= 0, "model:consume:refused", "%s: %s: consume('d', NULL) at position %ld of %ld returned %d", s->api, s->desc, p, L, rr);
+					p++;
+					if (open && p >= L) { src_reset(s); p = 0; }
+				} else if (!open) VF_CHECK(rr < 0, "model:consume:past-end", "%s: %s: consume('d', NULL) behind the end returned %d", s->api, s->desc, rr);
+			}
 		}
 		else if (s->kind == KNum) {
 			/* mpt_iterator_consume = read + advance */
@@ -1162,10 +1193,76 @@ static void case_buffer(vf_rng *r)
 	vf_sample("%s(%s%s)", mode == 0 ? "mpt_meta_buffer" : mode == 1 ? "mpt_meta_arguments" : "mpt_message_iterator", d, mode == 2 ? (a.sep ? ", sep ' '" : ", sep 0") : "");
 }
 
+
+/* ------------------------------------------------------------- file iterators */
+struct file_arg { const char *path; int mode; _MPT_ARRAY_TYPE(double) arr; };
+static MPT_INTERFACE(metatype) *make_file(void *p)
+{
+	struct file_arg *a = p;
+	if (a->mode == 0) return mpt_iterator_filename(a->path);
+	if (a->mode == 1) {
+		int fd = open(a->path, O_RDONLY);
+		MPT_INTERFACE(metatype) *mt;
+		if (fd < 0) return 0;
+		if (!(mt = mpt_iterator_file(fd))) close(fd);
+		return mt;
+	}
+	{
+		char desc[300];
+		snprintf(desc, sizeof(desc), "file %s", a->path);
+		return mpt_iterator_profile(&a->arr, desc);
+	}
+}
+static void case_file(vf_rng *r)
+{
+	static const char *seps[] = { " ", "\n", "  ", "\t", " \n" };
+	struct file_arg a = { 0, 0, MPT_ARRAY_INIT };
+	char path[64], content[600], d[700], t[40];
+	expect x = { -1, 0, 0, 0, 0 };
+	int n = vf_range(r, 1, 12), trailing = vf_chance(r, 1, 6), fd;
+	size_t l = 0;
+	static const char *apis[] = { "mpt_iterator_filename", "mpt_iterator_file", "mpt_iterator_profile" };
+
+	expect_alloc(&x, n);
+	for (int i = 0; i < n; i++) {
+		double v = pick_num(r, 0);
+		numtxt(t, sizeof(t), v, r);
+		x.v[i] = strtod(t, 0);
+		l += snprintf(content + l, sizeof(content) - l, "%s%s", i ? seps[vf_below(r, 5)] : "", t);
+	}
+	x.must_create = 1;
+	if (trailing) {
+		/* white space behind the last numeral: advance() announces an element that cannot be read (finding in the notes) */
+		l += snprintf(content + l, sizeof(content) - l, "\n");
+		expect_free(&x); x.L = -1; x.must_create = 0;
+	}
+	/* one name per process (a violation leaves the process before the unlink below) */
+	snprintf(path, sizeof(path), "/tmp/vf-c19-file-%ld", (long) getpid());
+	if ((fd = open(path, O_WRONLY | O_CREAT | O_TRUNC, 0600)) < 0 || write(fd, content, l) != (ssize_t) l) vf_inconclusive("cannot write temporary file");
+	close(fd);
+	a.path = path;
+	a.mode = (int) vf_below(r, 3);
+	if (a.mode == 2) {
+		double *grid = mpt_values_prepare(&a.arr, 3);
+		if (!grid) vf_inconclusive("mpt_values_prepare failed");
+	}
+	snprintf(d, sizeof(d), "%s:", trailing ? "file with trailing newline" : "file");
+	for (size_t i = 0, dl = strlen(d); i < l && dl + 2 < sizeof(d); i++) { d[dl++] = content[i] == '\n' ? '|' : content[i] == '\t' ? '_' : content[i]; d[dl] = 0; }
+	vf_fp(content, l); vf_fp_u64(60 + a.mode);
+	tail_not_claimed = trailing;
+	if (run_source(apis[a.mode], KFile, d, make_file, &a, &x, r) && n >= 2 && !trailing) vf_nontrivial();
+	tail_not_claimed = 0;
+	if (a.mode == 2) mpt_array_clone(&a.arr, 0);
+	unlink(path);
+	expect_free(&x);
+	vf_count("direct:file", 1);
+	vf_sample("%s(%s)", apis[a.mode], d);
+}
+
 /* ------------------------------------------------------------------- entry */
 static const struct { void (*fcn)(vf_rng *); unsigned weight; } kinds[] = {
 	{ case_text_lin, 5 }, { case_text_fact, 5 }, { case_text_range, 4 }, { case_text_values, 4 }, { case_text_mutated, 5 },
-	{ case_direct, 4 }, { case_from_iter, 2 }, { case_profile, 4 }, { case_fill, 2 }, { case_string, 2 }, { case_buffer, 3 }
+	{ case_direct, 4 }, { case_from_iter, 2 }, { case_profile, 4 }, { case_fill, 2 }, { case_string, 2 }, { case_buffer, 3 }, { case_file, 3 }
 };
 #define NKINDS (sizeof(kinds) / sizeof(*kinds))
 
